@@ -78,8 +78,8 @@ def judge(run):
         skipped = [r for r in log if r[4] and r[0] == a["cmd"]]
         if skipped:
             vs.append(V("the answer carries its request's Hop-by-Hop and End-to-End identifiers",
-                        f"identifiers/{label.get(a['cmd'])}/answer-to-a-retransmitted-request-with-other-ids",
-                        f"answer ({a['hbh']:#x},{a['e2e']:#x}); re-transmitted requests were {[(hex(r[1]), hex(r[2])) for r in skipped]}"))
+                        f"identifiers/{label.get(a['cmd'])}/answer-to-an-optionally-answered-request-with-other-ids",
+                        f"answer ({a['hbh']:#x},{a['e2e']:#x}); optionally answered requests were {[(hex(r[1]), hex(r[2])) for r in skipped]}"))
         else:
             vs.append(V("every answered base request gets exactly one answer", "count/extra",
                         f"answer {(a['cmd'], hex(a['hbh']))} matches no request; requests {[(r[0], hex(r[1])) for r in log]}"))
